@@ -142,7 +142,8 @@ ObsReply(o, id, status, kind, h) ==
   ELSE
   LET failed == status >= 500
       o1 == [o0 EXCEPT !.b[n].infl = @ - 1]
-      o2 == IF ~o.passive \/ kind = "aborted" THEN o1
+      o2 == IF ~o.passive THEN o1
+            ELSE IF kind = "aborted" THEN [o1 EXCEPT !.b[n].cum = @ + 1]   \* may count as a failed response, need not
             ELSE IF failed THEN [o1 EXCEPT !.b[n].run = @ + 1, !.b[n].cum = @ + 1]
             ELSE [o1 EXCEPT !.b[n].run = 0]
       must == o.passive /\ failed /\ kind # "aborted" /\ o2.b[n].run >= o.thr /\ n \in Range(o.pool)
@@ -161,20 +162,22 @@ ObsProbe(o, n, r) == IF r # "ok" /\ n \in DOMAIN o.b /\ n \in Range(o.pool) /\ ~
 Names(items) == [i \in DOMAIN items |-> items[i].name]
 
 \* op \in {add, remove, strategy}; items = /v1/backends right after the operation returned
-ObsAdmin(o, op, name, w, s, status, items) ==
+ObsAdmin(o, op, name, w, s, status, pre, items) ==
   LET names == Range(Names(items))
+      Static(x) == [name |-> x.name, addr |-> x.addr, w |-> x.w]
       okAdd == op = "add" /\ status = 201
       okRm == op = "remove" /\ status = 200
       okSt == op = "strategy" /\ status = 200
       failedOp == status >= 400
-      same == items = o.lastItems \/ o.lastItems = <<>>
+      same == items = pre
       vAdd == IF okAdd /\ name \notin names THEN <<V("C11", "AddVisible", name)>> ELSE <<>>
       vRm == IF okRm /\ name \in names THEN <<V("C11", "RemoveGone", name)>> ELSE <<>>
       vFail == IF failedOp /\ ~same THEN <<V("C11", "FailedOpChanged", op)>> ELSE <<>>
-      vSt == IF okSt /\ o.lastItems # <<>> /\ {items[i] : i \in DOMAIN items} # {o.lastItems[i] : i \in DOMAIN o.lastItems}
+      \* a strategy switch keeps exactly the same backends with their weights and health
+      vSt == IF okSt /\ {items[i] : i \in DOMAIN items} # {pre[i] : i \in DOMAIN pre}
              THEN <<V("C11", "StrategyPreserves", s)>> ELSE <<>>
-      vOther == IF (okAdd \/ okRm) /\ o.lastItems # <<>> /\
-                   {x \in {items[i] : i \in DOMAIN items} : x.name # name} # {x \in {o.lastItems[i] : i \in DOMAIN o.lastItems} : x.name # name}
+      vOther == IF (okAdd \/ okRm) /\
+                   {x \in {items[i] : i \in DOMAIN items} : x.name # name} # {x \in {pre[i] : i \in DOMAIN pre} : x.name # name}
                 THEN <<V("C11", "OtherBackendsChanged", name)>> ELSE <<>>
       o1 == [Q(o) EXCEPT !.lastItems = items]
       o2 == CASE okAdd /\ name \notin DOMAIN o.b ->
@@ -198,9 +201,10 @@ ObsList(o, items) == [Q(o) EXCEPT !.lastItems = items]
 ObsSnap(o, e) ==
   LET inflight == [n \in DOMAIN o.b |-> o.b[n].infl]
       vTot == IF e.total # o.nreq THEN <<V("C13", "TotalCount", "total")>> ELSE <<>>
-      vPart == IF e.total # e.ok + e.failed + e.limited THEN <<V("C13", "Partition", "sum")>> ELSE <<>>
-      bt == {n \in DOMAIN o.b : n \in DOMAIN e.backends /\ e.backends[n].total # o.b[n].disp}
-      bt0 == {n \in DOMAIN o.b : n \notin DOMAIN e.backends /\ o.b[n].disp # 0}
+      npend == Cardinality(DOMAIN o.pend)      \* exchanges still in flight are counted in total only
+      vPart == IF e.total # e.ok + e.failed + e.limited + npend THEN <<V("C13", "Partition", "sum")>> ELSE <<>>
+      bt == {n \in DOMAIN o.b : n \in DOMAIN e.backends /\ e.backends[n].total # o.b[n].disp - o.b[n].infl}
+      bt0 == {n \in DOMAIN o.b : n \notin DOMAIN e.backends /\ o.b[n].disp - o.b[n].infl # 0}
       vBT == IF bt \cup bt0 # {} THEN <<V("C13", "BackendTotals", CHOOSE n \in bt \cup bt0 : TRUE)>> ELSE <<>>
       g1 == {n \in DOMAIN o.b : n \in DOMAIN e.backends /\ e.backends[n].active # inflight[n]}
       g2 == {n \in DOMAIN o.b : n \in DOMAIN e.health /\ e.health[n].active # inflight[n]}
